@@ -42,6 +42,10 @@ pub mod agg;
 pub mod engine;
 pub mod bulk;
 pub mod cypher14;
+pub mod extid;
+pub mod capi;
+pub mod capix;
+pub mod crash;
 
 pub fn all() -> Vec<StreamDef> {
     vec![
@@ -72,6 +76,11 @@ pub fn all() -> Vec<StreamDef> {
         engine::def_abort(),
         bulk::def(),
         cypher14::def(),
+        extid::def(),
+        capi::def(),
+        capi::def_ryw(),
+        capix::def(),
+        crash::def(),
     ]
 }
 
